@@ -2,6 +2,7 @@ package chainfx
 
 import (
 	"bytes"
+	"crypto/ecdsa"
 	"fmt"
 	"math/rand"
 	"time"
@@ -12,6 +13,7 @@ import (
 	"github.com/idena-network/idena-go/config"
 	"github.com/idena-network/idena-go/core/state"
 	"github.com/idena-network/idena-go/crypto"
+	"github.com/idena-network/idena-go/crypto/vrf/p256"
 	"github.com/idena-network/idena-go/ipfs"
 )
 
@@ -24,6 +26,7 @@ type HistoryOpts struct {
 	BlockStep   time.Duration // virtual time between blocks (default 20 s)
 	EmptyEvery  int           // every k-th block is proposed from an empty mempool view? (0 = never) – handled by caller
 	Participate float64       // probability that a user takes part in a ceremony (default 0.75); god always does
+	Always      map[int]bool  // users that always take part (e.g. the key of a second proposing replica)
 }
 
 func ShortValidation() *config.ValidationConfig {
@@ -95,7 +98,7 @@ func (h *History) OfferTxs(b int) {
 		h.lastP = period
 		if period == state.FlipLotteryPeriod {
 			for i := range w.Keys {
-				h.part[i] = (i == 0 && h.O.Participate >= 0) || r.Float64() < h.O.Participate // Participate < 0: nobody, the validation fails
+				h.part[i] = (i == 0 && h.O.Participate >= 0) || h.O.Always[i] || r.Float64() < h.O.Participate // Participate < 0: nobody, the validation fails
 			}
 		}
 	}
@@ -110,8 +113,17 @@ func (h *History) OfferTxs(b int) {
 				}
 			}
 		}
+		for i := range h.O.Always {
+			// users that must stay able to propose: back online after every epoch change, no random transactions
+			if A.App.ValidatorsCache.IsValidated(w.Addrs[i]) && !A.App.ValidatorsCache.IsOnlineIdentity(w.Addrs[i]) && b%6 == 0 {
+				h.try(i, fmt.Sprint("online-always", b), OnlineTx(true))
+			}
+		}
 		for j, n := 0, r.Intn(h.O.TxPerBlock+1); j < n; j++ {
 			i := 1 + r.Intn(nU)
+			if h.O.Always[i] {
+				continue
+			}
 			to := w.Addrs[r.Intn(len(w.Addrs))]
 			switch r.Intn(12) {
 			case 0:
@@ -155,9 +167,14 @@ func (h *History) OfferTxs(b int) {
 				continue
 			}
 			h.try(i, "short-answers", &types.Transaction{Type: types.SubmitShortAnswersTx, Payload: attachments.CreateShortAnswerAttachment([]byte{byte(r.Intn(256))}, 1, 1)})
-			la := &attachments.LongAnswerAttachment{Answers: []byte{byte(r.Intn(256)), byte(r.Intn(256))}, Proof: []byte{1, 2, 3}, Key: []byte{1}, Salt: []byte{5}}
-			lp, _ := la.ToBytes()
-			h.try(i, "long-answers", &types.Transaction{Type: types.SubmitLongAnswersTx, Payload: lp})
+			first := h.try(i, "long-answers", &types.Transaction{Type: types.SubmitLongAnswersTx, Payload: LongAnswersPayload(A, w.Keys[i], []byte{byte(r.Intn(256)), byte(r.Intn(256))})})
+			if first != nil && r.Intn(4) == 0 {
+				// the same participant submits a second, different long-answers transaction within the same block interval
+				// (next nonce): acceptable to the pool now, a duplicate once the first one is applied
+				if _, err := h.S.Send(A, i, &types.Transaction{Type: types.SubmitLongAnswersTx, Payload: LongAnswersPayload(A, w.Keys[i], []byte{byte(r.Intn(256)), 1, 2})}); err == nil {
+					h.Stats["tx-ok:long-answers-second"]++
+				}
+			}
 			if A.VC != nil {
 				sid, idx, total := A.VC.FxCandidateIndex(w.Addrs[i])
 				if idx >= 0 {
@@ -174,6 +191,19 @@ func (h *History) OfferTxs(b int) {
 			}
 		}
 	}
+}
+
+// LongAnswersPayload builds a long-answers attachment with a real VRF proof over the state's flip words seed (the proof
+// is verified from epoch 1 on).
+func LongAnswersPayload(n *Node, key *ecdsa.PrivateKey, answers []byte) []byte {
+	proof := []byte{1, 2, 3}
+	if signer, err := p256.NewVRFSigner(key); err == nil {
+		seed := n.App.State.FlipWordsSeed()
+		_, proof = signer.Evaluate(seed[:])
+	}
+	la := &attachments.LongAnswerAttachment{Answers: answers, Proof: proof, Key: []byte{1}, Salt: []byte{5}}
+	lp, _ := la.ToBytes()
+	return lp
 }
 
 // Step offers transactions, advances the virtual clock, proposes and inserts one block. Returns the block.
